@@ -980,3 +980,16 @@ Proof.
   apply func_eqb_sound in H1. subst f. split; [reflexivity|].
   split; [eapply check_typing_valid; eauto|eapply check_typing_simulates; eauto].
 Qed.
+
+(* what the typing in [item_sim] means for the operands: every scalar read by the instruction about to
+   execute has, in the SSA state at the version it names, the binding its name has in the original state *)
+Lemma item_operands_agree f' ty a b : item_sim f' ty a b ->
+  forall i rs s, loc_instruction f' (ti_loc a) = Some i -> op_scalars_read (i_op i) = Some rs -> In s rs ->
+  env_get (st_env (ti_before b)) (skey_of s) = env_get (st_env (ti_before a)) (sname s, None).
+Proof.
+  intros (_ & (G & _ & [_ HR] & Hop) & _) i rs s Hi Hrs Hs. specialize (Hop _ Hi). unfold op_ok in Hop.
+  apply andb_prop in Hop. destruct Hop as [Hrd _]. rewrite Hrs in Hrd. unfold reads_ok in Hrd.
+  rewrite forallb_forall in Hrd. specialize (Hrd _ Hs). unfold read_ok in Hrd.
+  destruct (tlookup G (sname s)) as [v|] eqn:El; [|discriminate]. apply optN_eqb_sound in Hrd. subst v.
+  unfold skey_of. apply HR. assumption.
+Qed.
